@@ -102,7 +102,7 @@ def c07(lines, out):
                 v.append(('no_ctx', '%s without a context returned %s' % (r.op, r.result)))
             if r.dump and r.dump != r.prev_dump:
                 v.append(('no_ctx', '%s without a context had an effect' % r.op))
-        if t[0] == 'ctx_dereg' and r.result == '0' and ctx is not None:
+        if t[0] == 'ctx_dereg' and r.result == '0' and ctx is not None and r.depth == 0:
             if ctx['state'] is not None or any(m['state'] != 'Z' for m in mods.values()):
                 v.append(('teardown', 'after m_ctx_deregister: %s' % r.dump))
         if t[0] == 'ctx_dereg' and pctx['state'] == 'loop' and r.depth == 0 and not neg(r.result):
@@ -178,7 +178,10 @@ def c17(lines, out):
                     if m['state'] in ('S', 'Z', 'I'):
                         stack[h] = []
                     elif 'recvs' in m and m['recvs'] != len(stack.get(h, [])):
-                        v.append(('stack_len', '%s: stack length %d, expected %d' % (h, m['recvs'], len(stack.get(h, [])))))
+                        # an empty stack can be the trace of a stop + restart that happened inside a callback
+                        # (no dump in between shows the STOPPED state)
+                        if m['recvs'] != 0:
+                            v.append(('stack_len', '%s: stack length %d, expected %d' % (h, m['recvs'], len(stack.get(h, [])))))
                         stack[h] = stack.get(h, [])[:m['recvs']]
     return v
 
@@ -324,7 +327,8 @@ def c16(lines, out):
                 if m['state'] in ('S', 'Z', 'I'):
                     stash[h] = []
                 elif 'stash' in m and m['stash'] != len(stash.get(h, [])):
-                    v.append(('stash_len', '%s holds %d stashed events, expected %d' % (h, m['stash'], len(stash.get(h, [])))))
+                    if m['stash'] != 0:   # empty: possibly a stop + restart inside a callback
+                        v.append(('stash_len', '%s holds %d stashed events, expected %d' % (h, m['stash'], len(stash.get(h, [])))))
                     stash[h] = stash.get(h, [])[:m['stash']]
     return v
 
